@@ -127,6 +127,139 @@ def two_runs(vec, st, sc, ms, oracle, V, S, norm_fresh=True, clock=False):
     return None, read
 
 
+def _adv_set_class(decider):
+    """A set whose iteration order is chosen by the decider (insertion order,
+    reversed, rotated by one, or both - one choice for the whole run): a
+    sample of what a different PYTHONHASHSEED does to
+    a set of strings or nodes.  Installed as the name ``set`` in the ddsmt
+    modules, so ``set(...)`` calls build it (set displays and
+    comprehensions do not - stated in the evidence)."""
+    import collections.abc
+    mode = []
+
+    class AdvSet(collections.abc.MutableSet):
+        def __init__(self, it=()):
+            self._d = {}
+            for x in it:
+                self._d[x] = None
+
+        @classmethod
+        def _from_iterable(cls, it):
+            return cls(it)
+
+        def __contains__(self, x):
+            return x in self._d
+
+        def __len__(self):
+            return len(self._d)
+
+        def __iter__(self):
+            items = list(self._d)
+            if len(items) > 1:
+                # one global choice of order for the whole run (two bits):
+                # insertion order, reversed, rotated, reversed and rotated
+                if not mode:
+                    mode.append((decider.bit(), decider.bit()))
+                rev, rot = mode[0]
+                if rot:
+                    items = items[1:] + items[:1]
+                if rev:
+                    items.reverse()
+            return iter(items)
+
+        def add(self, x):
+            self._d[x] = None
+
+        def discard(self, x):
+            self._d.pop(x, None)
+
+        def update(self, *its):
+            for it in its:
+                for x in it:
+                    self._d[x] = None
+
+        def union(self, *its):
+            r = AdvSet(self._d)
+            r.update(*its)
+            return r
+
+        def difference(self, *its):
+            r = AdvSet(self._d)
+            for it in its:
+                for x in it:
+                    r.discard(x)
+            return r
+
+        def intersection(self, *its):
+            r = AdvSet(self._d)
+            for it in its:
+                keep = set(it)
+                r = AdvSet(x for x in r._d if x in keep)
+            return r
+
+        def copy(self):
+            return AdvSet(self._d)
+
+        def __repr__(self):
+            return 'AdvSet(%r)' % list(self._d)
+
+    return AdvSet
+
+
+def setorder_runs(vec, st, sc, V, S, oracle='hash0'):
+    """The same run with every ``set(...)`` of the ddsmt modules iterating
+    in insertion order, and in an order chosen by the decider."""
+    import sys
+    outs = []
+    read = set()
+    for quiet in (True, False):
+        import ddsmt.nodes as _N
+        _N.Node._Node__ID_COUNTER.value = 0
+        d = Decider(S, replay=list(vec), reserved=V)
+        cls = _adv_set_class(_Quiet() if quiet else d)
+        mods = [m for n, m in list(sys.modules.items())
+                if n.startswith('ddsmt.') and m is not None]
+        for m in mods:
+            m.__dict__['set'] = cls
+        try:
+            env = SC.setup(d, st, 1, V, sc, 'all', oracle=oracle,
+                           maxwrites=60, norm_fresh=True)
+            env.mp.d = _Quiet()
+            try:
+                final = SC.run_strategy(env, st)
+                outs.append((list(env.writes),
+                             SC._FRESH.sub('x#__fresh', SC.tokens(final))))
+            except SC.Runaway:
+                outs.append('runaway')
+            finally:
+                env.restore()
+        finally:
+            for m in mods:
+                m.__dict__.pop('set', None)
+            from ddsmt import smtlib
+            smtlib.reset_information()
+        read |= d.read
+    if 'runaway' in outs:
+        return 'skip', read
+    a, b = outs
+    if a != b:
+        return (f'the run depends on the iteration order of a set: insertion '
+                f'order writes {a[0]!r} and ends with {a[1]!r}; another order '
+                f'writes {b[0]!r} and ends with {b[1]!r}'), read
+    return None, read
+
+
+def make_setorder(st, sc, tier, oracle='hash0'):
+    V, S = (8, 2) if tier == "quick" else (10, 2)
+
+    def run():
+        from vlib.engine import explore_choices
+        return explore_choices(
+            lambda vec: setorder_runs(vec, st, sc, V, S, oracle), V + S,
+            budget_s=170 if tier == 'quick' else 850)
+    return run
+
+
 class _Quiet:
     """Scheduler decisions all default (lazy schedule)."""
 
@@ -270,6 +403,16 @@ def partitions(tier):
                           'bounds': {'strategy': st, 'script': sc,
                                      'mutators': ms, 'oracle': oracle,
                                      'clock': 'perturbed', **bounds(tier)}})
+    for (st, sc, orc) in [('hierarchical', 'm', 'hash0'),
+                          ('ddmin', 'm', 'hash0'), ('hybrid', 'g', 'hash0'),
+                          ('ddmin', 'b', 'hash0'), ('hierarchical', 'd', 'hash0'),
+                          ('ddmin', 'n', 'hash0'), ('ddmin', 'n', 'hash1'),
+                          ('hierarchical', 'n', 'hash1')]:
+        parts.append({'name': f'setorder_{st}_{sc}_{orc}', 'kind': 'choices',
+                      'run': make_setorder(st, sc, tier, orc),
+                      'budget_s': 170 if tier == 'quick' else 850,
+                      'bounds': {'strategy': st, 'script': sc,
+                                 'mutators': 'all', 'set_order': 'adversarial'}})
     import itertools
     pins = [()] if tier == 'quick' else list(
         itertools.product((0, 1), repeat=3))
@@ -296,6 +439,15 @@ def replay(part, cex):
     if part.startswith('slack_'):
         from harness import c10
         return c10.replay('golden_' + part[6:] + '_gto0', cex)
+    if part.startswith('setorder_'):
+        _, st, sc, orc = part.split('_')
+        tier = os.environ.get('VERIF_TIER_REPLAY', 'quick')
+        V, S = (8, 2) if tier == "quick" else (10, 2)
+        try:
+            r, _ = setorder_runs(cex['bits'], st, sc, V, S, orc)
+        except Exception as e:
+            return f'{type(e).__name__}: {e}'
+        return None if r in (None, 'skip') else r
     raw = part.startswith('raw_')
     if raw:
         part = part[4:]
